@@ -478,6 +478,8 @@ class Parser(ExprParser):
                 ns = self.namespace.unqualified_lookup(self.token.value)
                 if ns:
                     ns, ns_name = self.nested_namespace(ns)
+                    if getattr(ns, "typemap", None) is None:
+                        self.error_msg("'{}' is not a type".format(ns_name))
                     node.specifier.append(ns_name)
                     self.parse_template_arguments(node)
                     if (
